@@ -38,9 +38,9 @@ var notDecided = map[string]string{
 	"C15": "equality of the appended bytes with Append(nil, ...)",
 	"C16": "byte equality with Marshal; behaviour of user MarshalTo",
 	"C17": "Depth/Index/IsKey against encoding/json's token stream; termination needs value reasoning about the scanners",
-	"C18": "daysSinceEpoch, nonNumeric bit tricks, leap years, the Valid grammar for all 32 flag sets",
+	"C18": "daysSinceEpoch and the leap-year arithmetic as numbers, equality of Parse's instant with time.Parse's for every accepted string (the grammar of Valid for all 32 flag sets and the word-at-a-time digit test are decided, R-ISOGRAMMAR / R-SWAR)",
 	"C19": "that untouched fields are carried over byte-for-byte; BitOr semantics per kind",
-	"C20": "the predicates themselves (they live in github.com/segmentio/asm, assembly and word-at-a-time Go, outside /repo)",
+	"C20": "the slice and string predicates themselves (they live in github.com/segmentio/asm, assembly and word-at-a-time Go, outside /repo); the four scalar predicates are evaluated exactly",
 }
 
 func assumptions(prop string) []string {
